@@ -208,6 +208,23 @@ func genFlow(c *core.Check, emit func(Program) bool) {
 			}
 		}
 	}
+	// labelled statements as branches: a break to the branch's own label only leaves the label, not the list around it
+	labelStmts := []string{"h1(1)", "break l", "if(b)break l", "return a", "a=h1(2)", "", "throw 1", "break m", "if(b)break m"}
+	labelled := []string{
+		"m:{if(a)l:{S1;S2}else S3;h1(9)}h1(8)", "m:{if(!a)S3;else l:{S1;S2}h1(9)}h1(8)", "m:{if(a){l:{S1;S2}}else{S3}h1(9)}h1(8)", "m:{l:if(a){S1;S2}else S3;h1(9)}h1(8)", "m:{if(a)l:{S1;S2}h1(9);S3}h1(8)",
+		"m:{if(a)l:{S1}else l:{S2}S3;h1(9)}h1(8)", "m:for(;;){if(a)l:{S1;S2}else S3;h1(9);break}h1(8)", "m:{if(a)l:for(;;){S1;S2}else S3;h1(9)}h1(8)", "m:{if(a)l:{S1;S2}else{let q=h1(7);S3}h1(9)}h1(8)", "m:{l:{if(a){S1;S2}else S3}h1(9)}h1(8)",
+	}
+	for _, t := range labelled {
+		for _, s1 := range labelStmts {
+			for _, s2 := range labelStmts {
+				for _, s3 := range labelStmts {
+					if !emit(Program{fn(pre + fill(t, s1, s2, s3)), "fn", vectorsOver([]string{"0", "1"}, 2)}) {
+						return
+					}
+				}
+			}
+		}
+	}
 	loops := []string{
 		"for(var i=0;i<2;i++){S1;S2}S3", "while(h2()){S1;S2}S3", "do{S1;S2}while(h2());S3", "for(var k in {p:1,q:2}){S1;S2}S3", "for(var k of [1,2]){S1;S2}S3", "for(;;){S1;S2;break}S3", "o:for(var i=0;i<2;i++){for(;;){S1;S2;break o}}S3",
 		"for(var i=0;i<2;i++){if(a){S1}else{S2}S3}", "for(var i=0;i<2;i++){if(a){S1;S2}S3}", "while(h2()){if(a)S1;else S2;S3}", "for(var i=0;i<2;i++){switch(a){case 1:S1;S2;default:S3}}", "for(var i=0;i<2;i++){try{S1;S2}finally{S3}}",
